@@ -5,9 +5,10 @@
  * fault, choice 3 (cost 1) = second injected fault (only explored with
  * --bound 2).  A fault is: "the n-th allocation made by libevent after the
  * scenario's ARM() point fails" for every n up to the number of allocations the
- * fault-free run makes (+ALLOC_MARGIN), or "the k-th call of system call s
- * after ARM() fails with errno e" for every wrapped s, every k up to the number
- * of calls the fault-free run makes + 1, and e in {EPERM, EBADF, ENOMEM, EAGAIN}.
+ * fault-free run makes, or "the k-th call of system call s after ARM() fails
+ * with errno e" for every wrapped s, every k up to the number of calls the
+ * fault-free run makes, and e in {EPERM, EBADF, ENOMEM, EAGAIN}; -P margin=N adds
+ * N positions per system call and 2N per allocator beyond the fault-free path.
  * The per-scenario counts come from a fault-free warm-up run in cfg.init.
  *
  * Oracle (env/locks.c): harness locks installed through
